@@ -104,7 +104,7 @@ theorem resolveCall_miss_ok {tbl : List SealRec} {inst : Inst} {now : Int} {cur 
     (hmiss : (cacheGet inst.cacheMax inst.cache now (cacheKey cur.callId who)).1 = none) :
     ∃ t d, callTok = some t ∧ Minted tbl inst.key callVersion (callAad who) t (.call d) ∧
       d.callId = cur.callId ∧ tooOld now inst.ttl d.created = false ∧
-      rc = ⟨d.schema, d.streamId⟩ := by
+      rc = d.resolved := by
   unfold resolveCall at h
   split at h
   · rename_i r c' hget
@@ -451,10 +451,10 @@ def exNonce1 : Bytes := List.replicate 24 1
 def exNonce2 : Bytes := List.replicate 24 2
 def exCt : Bytes := List.replicate 16 9
 def exCursor : CursorData := ⟨100, [65], [109], .exchange, 0, 5⟩
-def exCall : CallData := ⟨100, [65], [], [83]⟩
+def exCall : CallData := ⟨100, [65], [], [83], []⟩
 def exTbl : List SealRec :=
   [⟨exKey, exNonce1, cursorAad anon, exCt, .cursor exCursor⟩, ⟨exKey, exNonce2, callAad anon, exCt, .call exCall⟩]
-def exInst : Inst := ⟨exKey, 60000, 0, [], false, [], [], true, true, [⟨[109], .exchange, .exchange⟩]⟩
+def exInst : Inst := ⟨exKey, 60000, 0, [], false, [], [], true, true, [⟨[109], .exchange, .exchange, []⟩]⟩
 /-- base64 text of `06 ‖ 01×24 ‖ 09×16`: "BgEBAQEBAQEBAQEBAQEBAQEBAQEBAQEBAQkJCQkJCQkJCQkJCQkJCQk=" -/
 def exCursorTok : Bytes := [66, 103, 69, 66, 65, 81, 69, 66, 65, 81, 69, 66, 65, 81, 69, 66, 65, 81, 69, 66, 65, 81, 69, 66, 65, 81, 69, 66, 65, 81, 69, 66, 65, 81, 107, 74, 67, 81, 107, 74, 67, 81, 107, 74, 67, 81, 107, 74, 67, 81, 107, 74, 67, 81, 107, 61]
 /-- base64 text of `01 ‖ 02×24 ‖ 09×16`: "AQICAgICAgICAgICAgICAgICAgICAgICAgkJCQkJCQkJCQkJCQkJCQk=" -/
@@ -465,22 +465,22 @@ def exFlipTok : Bytes := [66, 103, 69, 66, 65, 81, 69, 66, 65, 81, 69, 66, 65, 8
 def exV7Tok : Bytes := [66, 119, 69, 66, 65, 81, 69, 66, 65, 81, 69, 66, 65, 81, 69, 66, 65, 81, 69, 66, 65, 81, 69, 66, 65, 81, 69, 66, 65, 81, 69, 66, 65, 81, 107, 74, 67, 81, 107, 74, 67, 81, 107, 74, 67, 81, 107, 74, 67, 81, 107, 74, 67, 81, 107, 61]
 /-- the call token's envelope with its version byte rewritten to 6: "BgICAgICAgICAgICAgICAgICAgICAgICAgkJCQkJCQkJCQkJCQkJCQk=" -/
 def exCallAsCursorTok : Bytes := [66, 103, 73, 67, 65, 103, 73, 67, 65, 103, 73, 67, 65, 103, 73, 67, 65, 103, 73, 67, 65, 103, 73, 67, 65, 103, 73, 67, 65, 103, 73, 67, 65, 103, 107, 74, 67, 81, 107, 74, 67, 81, 107, 74, 67, 81, 107, 74, 67, 81, 107, 74, 67, 81, 107, 61]
-def exReq : Req := ⟨anon, [109], some exCursorTok, some exCallTok, false, none, 130000⟩
+def exReq : Req := ⟨anon, [109], some exCursorTok, some exCallTok, false, none, 130000, []⟩
 
 example : (exchange exTbl exInst exReq).2.err = none ∧
-    (exchange exTbl exInst exReq).2.events = [.rehydrate [109], .hookStart [109] [83], .exchange, .hookEnd] := by
+    (exchange exTbl exInst exReq).2.events = [.rehydrate [109], .hookStart [109] [83], .exchange [], .hookEnd] := by
   decide
 
 -- one flipped ciphertext bit: signature failure, nothing runs
-example : (exchange exTbl exInst ⟨anon, [109], some exFlipTok, some exCallTok, false, none, 130000⟩).2 =
+example : (exchange exTbl exInst ⟨anon, [109], some exFlipTok, some exCallTok, false, none, 130000, []⟩).2 =
     refuse 400 .signature := by decide
 
 -- version byte 7
-example : (exchange exTbl exInst ⟨anon, [109], some exV7Tok, some exCallTok, false, none, 130000⟩).2 =
+example : (exchange exTbl exInst ⟨anon, [109], some exV7Tok, some exCallTok, false, none, 130000, []⟩).2 =
     refuse 400 (.version 7 6) := by decide
 
 -- a genuine cursor with the call token absent on a cold cache
-example : (exchange exTbl exInst ⟨anon, [109], some exCursorTok, none, false, none, 130000⟩).2 =
+example : (exchange exTbl exInst ⟨anon, [109], some exCursorTok, none, false, none, 130000, []⟩).2 =
     refuse 400 .missingCall := by decide
 
 -- the hypothesis of `forged_cursor_never_reaches_state` holds for the flipped token
